@@ -13,7 +13,7 @@ use i_tree::key::tree::KeyExpTree;
 use i_tree::verif::VerifSnapshot;
 use i_tree::EMPTY_REF;
 
-pub const KEY_OPS: &[&str] = &["ins", "fl", "fle", "fleby", "get", "adv", "clear", "isempty", "export", "bulk", "drain"];
+pub const KEY_OPS: &[&str] = &["ins", "fl", "fle", "fleby", "get", "adv", "clear", "isempty", "export", "bulk", "drain", "run"];
 pub const K_INS: u8 = 0;
 pub const K_FL: u8 = 1;
 pub const K_FLE: u8 = 2;
@@ -27,6 +27,8 @@ pub const K_BULK: u8 = 9;
 /// `drain n`: n predecessor queries at evenly spaced probes (each with the usual oracle), so that
 /// lazy expiry physically removes most of what has expired
 pub const K_DRAIN: u8 = 10;
+/// `run start len dir d`: a monotone run of insertions with expiration clock + d
+pub const K_RUN: u8 = 11;
 
 pub const DEFAULT_VAL: u64 = u64::MAX;
 
@@ -617,6 +619,30 @@ impl<'a, C: KeyColl> KeyRun<'a, C> {
             K_ISEMPTY => self.op_isempty(i),
             K_EXPORT => self.op_export(i, op),
             K_BULK => self.op_bulk(i, op),
+            K_RUN => {
+                let len = op.args[1].rem_euclid(200).max(1);
+                let desc = op.args[2].rem_euclid(2) == 1;
+                let start = op.args[0].rem_euclid(self.u as i64);
+                let t = self.clock;
+                for j in 0..len {
+                    let k = if desc { start - j } else { start + j };
+                    if k < 0 || k >= self.u as i64 {
+                        break;
+                    }
+                    if self.model.is_live(k as i32, t) {
+                        continue;
+                    }
+                    match self.op_insert(i, &RawOp::new(K_INS, &[k, op.args[3]])) {
+                        Step::Continue => {
+                            self.out.callbacks.pop();
+                        }
+                        Step::Stop => return Step::Stop,
+                    }
+                }
+                self.out.callbacks.push(0);
+                self.out.class(if desc { "run_descending" } else { "run_ascending" });
+                Step::Continue
+            }
             K_DRAIN => {
                 let n = op.args[0].rem_euclid(1 << 20).max(1);
                 let span = self.u as i64 + 2;
